@@ -2,7 +2,10 @@
 (remove_tunnel_delay = 5 s) holding an enabled exit socket is unloaded; afterwards a late cell must not reach a handler and the
 exit socket must have been closed.  Prints REPRODUCED <what> (exit 1) if the property is violated, OK (exit 0) otherwise."""
 import asyncio
+import os
 import sys
+
+sys.path.insert(0, os.environ.get("PYVC_REPO", "/repo"))
 
 from ipv8.messaging.anonymization.community import TunnelCommunity, TunnelSettings
 from ipv8.messaging.anonymization.exit_socket import TunnelExitSocket
@@ -45,10 +48,13 @@ async def main():
     if handled:
         problems.append("a handler ran after unload (crypto endpoint still forwards)")
     internet.clear()
+    import json
     if problems:
         print("REPRODUCED " + "; ".join(problems))
-        return 1
-    print("OK")
-    return 0
+    else:
+        print("OK")
+    print(json.dumps({"ok": not problems, "cases": 1, "failures": [{"what": p, "input": "default TunnelSettings, one enabled exit socket, "
+                                                                                        "unload, then one late datagram"} for p in problems]}))
+    return 1 if problems else 0
 
 sys.exit(asyncio.run(main()))
